@@ -15,7 +15,7 @@ theorem beNat_append_singleton (bs : Bytes) (b : UInt8) : beNat (bs ++ [b]) = be
 
 theorem beNat_nil : beNat [] = 0 := rfl
 
-theorem beNat_toBE (w n : Nat) : beNat (toBE w n) = n % 256 ^ w := by
+theorem beNat_toBE_a6 (w n : Nat) : beNat (toBE w n) = n % 256 ^ w := by
   induction w generalizing n with
   | zero => simp [toBE, beNat, Nat.mod_one]
   | succ w ih =>
@@ -26,9 +26,9 @@ theorem beNat_toBE (w n : Nat) : beNat (toBE w n) = n % 256 ^ w := by
     rw [h1, Nat.pow_succ, Nat.mul_comm (256 ^ w) 256, Nat.mod_mul, Nat.mul_comm, Nat.add_comm]
 
 theorem beNat_toBE_of_lt {w n : Nat} (h : n < 256 ^ w) : beNat (toBE w n) = n := by
-  rw [beNat_toBE, Nat.mod_eq_of_lt h]
+  rw [beNat_toBE_a6, Nat.mod_eq_of_lt h]
 
-theorem beNat_foldl (acc : Nat) (bs : Bytes) :
+theorem beNat_foldl_a6 (acc : Nat) (bs : Bytes) :
     bs.foldl (fun acc b => acc * 256 + b.toNat) acc = acc * 256 ^ bs.length + beNat bs := by
   induction bs generalizing acc with
   | nil => simp [beNat]
@@ -38,10 +38,10 @@ theorem beNat_foldl (acc : Nat) (bs : Bytes) :
     simp only [Nat.zero_mul, Nat.zero_add, Nat.add_mul, Nat.mul_assoc, Nat.add_assoc, Nat.mul_comm 256]
 
 theorem beNat_cons (b : UInt8) (bs : Bytes) : beNat (b :: bs) = b.toNat * 256 ^ bs.length + beNat bs := by
-  have := beNat_foldl b.toNat bs
+  have := beNat_foldl_a6 b.toNat bs
   simpa [beNat] using this
 
-theorem beNat_lt (bs : Bytes) : beNat bs < 256 ^ bs.length := by
+theorem beNat_lt_a6 (bs : Bytes) : beNat bs < 256 ^ bs.length := by
   induction bs with
   | nil => simp [beNat]
   | cons b bs ih =>
@@ -50,18 +50,18 @@ theorem beNat_lt (bs : Bytes) : beNat bs < 256 ^ bs.length := by
     have h2 : b.toNat * 256 ^ bs.length ≤ 255 * 256 ^ bs.length := Nat.mul_le_mul_right _ (by omega)
     omega
 
-theorem takeN_append (x r : Bytes) : takeN x.length (x ++ r) = some (x, r) := by
+theorem takeN_append_a6 (x r : Bytes) : takeN x.length (x ++ r) = some (x, r) := by
   simp [takeN]
 
 theorem takeN_append' {n : Nat} (x r : Bytes) (h : x.length = n) : takeN n (x ++ r) = some (x, r) := by
-  subst h; exact takeN_append x r
+  subst h; exact takeN_append_a6 x r
 
-theorem beU_append (x r : Bytes) : beU x.length (x ++ r) = some (beNat x, r) := by
+theorem beU_append_a6 (x r : Bytes) : beU x.length (x ++ r) = some (beNat x, r) := by
   simp [beU]
 
 theorem beU_toBE (w n : Nat) (r : Bytes) : beU w (toBE w n ++ r) = some (n % 256 ^ w, r) := by
-  have := beU_append (toBE w n) r
-  rw [toBE_length, beNat_toBE] at this
+  have := beU_append_a6 (toBE w n) r
+  rw [toBE_length, beNat_toBE_a6] at this
   exact this
 
 theorem beU_toBE_of_lt {w n : Nat} (h : n < 256 ^ w) (r : Bytes) : beU w (toBE w n ++ r) = some (n, r) := by
